@@ -73,6 +73,31 @@ func c02Core(c *Ctx, r *Report, cs *Census, only func(s *panicSite) bool) {
 		if s.class == "bounds" && s.how == "" && s.pos.IsValid() {
 			s.how = auto.discharge(s)
 		}
+		// reflection over a constant list of field names, re-derived from the source
+		if s.how == "" && s.pos.IsValid() && (s.class == "assert" || s.class == "library-panic") {
+			switch x := auto.byPos[s.pos].(type) {
+			case *ssa.TypeAssert:
+				if why := auto.reflectFieldList(x.X); why != "" {
+					parts := strings.SplitN(why, "|", 2)
+					if len(parts) == 2 && parts[1] == x.AssertedType.String() {
+						s.how = parts[0]
+					}
+				}
+			case *ssa.Call:
+				switch staticCalleeName(&x.Call) {
+				case "(reflect.Value).Interface":
+					if len(x.Call.Args) == 1 {
+						if why := auto.reflectFieldByName(x.Call.Args[0], ""); why != "" {
+							s.how = strings.SplitN(why, "|", 2)[0]
+						}
+					}
+				case "(reflect.Value).FieldByName":
+					if why := auto.reflectFieldByName(x, ""); why != "" {
+						s.how = strings.SplitN(why, "|", 2)[0]
+					}
+				}
+			}
+		}
 	}
 	for i, s := range sites {
 		counts[s.class]++
